@@ -4,6 +4,7 @@ import (
 	"fmt"
 	"os"
 	"path/filepath"
+	"strings"
 	"testing"
 
 	"verif/h"
@@ -61,6 +62,12 @@ func TestProgenSelf(t *testing.T) {
 		if !r.OK() {
 			t.Errorf("kind %s does not build:\n%s", kind, r.Brief())
 			continue
+		}
+		if prog.Features["tests"] {
+			tr := box.Go(dir, nil, "test", "-count=1", "./...")
+			if strings.Contains(tr.Stdout+tr.Stderr, "build failed") || strings.Contains(tr.Stdout+tr.Stderr, "setup failed") {
+				t.Errorf("kind %s: go test does not build:\n%s", kind, tr.Brief())
+			}
 		}
 		for _, args := range spec.Args {
 			a := h.Run(h.Cmd{Dir: dir, Env: box.Env(h.Config{}), Args: append([]string{filepath.Join(dir, "prog.bin")}, args...)})
